@@ -156,7 +156,11 @@ def check_kernels(res, L, rng, tag, tier, jit):
     for (ga, gb) in chosen:
         which = ['gmt', 'omt', 'imt', 'lcmt'][int(rng.integers(4))]
         T = tables[which]
-        f = gens[which](grades_a=ga, grades_b=gb)
+        # the signature asks for a container of grades: lists, tuples, sets (what `MultiVector.grades()` returns), frozensets, arrays
+        kinds = [list, tuple, set, frozenset, lambda g: np.array(sorted(g), dtype=int)]
+        ca, cb = kinds[int(rng.integers(len(kinds)))], kinds[int(rng.integers(len(kinds)))]
+        res.count('grade_container_' + (getattr(ca, '__name__', 'ndarray') if not callable(ca) or hasattr(ca, '__name__') else 'ndarray'))
+        f = gens[which](grades_a=ca(ga), grades_b=cb(gb))
         dt = ['int64', 'float64'][int(rng.integers(2))]
         a, ea = operand(rng, N, dt, 'dense')
         b, eb = operand(rng, N, dt, ['dense', 'half'][int(rng.integers(2))])
